@@ -82,7 +82,8 @@ def cases(tier, seed):
         out.append({"kind": "stop", "cls": "stop_tuned_tolerance", "idx": idx, "seed": seed, "maxd": maxd, "tuned": True})
         idx += 1
     for k_, pat in enumerate(["pure_imag", "real_only", "axis_i", "axis_j", "axis_k", "real_j", "real_k", "i_k", "j_k", "complex_subfield", "real_i_j", "all",
-                              "pure_imag+masked", "real_j+masked", "j_k+masked", "all+masked"]):
+                              "pure_imag+masked", "real_j+masked", "j_k+masked", "all+masked",
+                              "struct:herm_psd", "struct:herm_indef", "struct:unitary", "struct:scaled_unitary", "struct:diag", "struct:upper_tri"]):
         for rep_ in range(2 if tier == "quick" else 12):
             out.append({"kind": "patterns", "cls": "component_patterns", "pattern": pat, "idx": idx, "seed": seed})
             idx += 1
@@ -106,15 +107,24 @@ def _patterns(spec, ctx, R):
     rng = gen.rng_for(spec["seed"], "c03pat", spec["idx"])
     m, n = (int(x) for x in rng.integers(1, 6, size=2))
     pat = spec["pattern"]
+    if pat.startswith("struct:"):
+        # square structured operands (Hermitian definite / indefinite, unitary and scaled unitary, diagonal, triangular): the same recurrence
+        n = m = max(2, min(m, n))
+        sc_ = pat.split(":", 1)[1]
+        As_ = gen.structured(rng, sc_.replace("scaled_", ""), n, n)
+        if sc_ == "scaled_unitary":
+            As_ = As_ * 2.5
+        if sc_ in ("upper_tri", "diag"):
+            As_ = As_ + refq.diagq(np.full(n, 3.0), n, n)
     c = rng.standard_normal((m, n, 4))
-    keep = {"pure_imag": [1, 2, 3], "real_only": [0], "axis_i": [1], "axis_j": [2], "axis_k": [3], "real_j": [0, 2], "real_k": [0, 3], "i_k": [1, 3],
-            "j_k": [2, 3], "complex_subfield": [0, 1], "real_i_j": [0, 1, 2], "all": [0, 1, 2, 3]}[pat.split("+")[0]]
+    keep = {"struct": [0, 1, 2, 3], "pure_imag": [1, 2, 3], "real_only": [0], "axis_i": [1], "axis_j": [2], "axis_k": [3], "real_j": [0, 2], "real_k": [0, 3], "i_k": [1, 3],
+            "j_k": [2, 3], "complex_subfield": [0, 1], "real_i_j": [0, 1, 2], "all": [0, 1, 2, 3]}[pat.split("+")[0].split(":")[0]]
     mask = np.zeros(4); mask[keep] = 1.0
     c = c * mask
     if pat.endswith("+masked"):
         c = c * (rng.random((m, n, 4)) < 0.6)            # different sparsity pattern in every component
         c[0, 0, keep[0]] = 1.5
-    A = refq.qa(c)
+    A = refq.qa(c) if not pat.startswith("struct:") else As_
     if embed.rank(A, rtol=1e-9) < min(m, n):
         ctx.skip("trajectory", "component-pattern operand happens to be rank-deficient")
         return
